@@ -288,6 +288,17 @@ class SymCtx:
         self._skolem_once("RRUNLO", t, make)
         return self.ghost("RRUNLO", t, j)
 
+    def rec_asc_lo(self, t, j):
+        """RECURSIVELY DEFINED start of the maximal strictly ASCENDING run ending at j:
+        lo(0) = 0, lo(j+1) = lo(j) if t[j] < t[j+1] else j+1  (well-founded recursion: conservative)."""
+        def make(L, at, n):
+            jv = fresh("rj")
+            self.engine.global_axioms.append(L(z3.IntVal(0)) == 0)
+            self.engine.global_axioms.append(z3.ForAll([jv], z3.Implies(jv >= 0, L(jv + 1) == z3.If(at(jv) < at(jv + 1), L(jv), jv + 1)), patterns=[L(jv + 1)], qid="rec-asclo"))
+
+        self._skolem_once("RASCLO", t, make)
+        return self.ghost("RASCLO", t, j)
+
     def rec_run_hi_from_end(self, t, d):
         """RECURSIVELY DEFINED end (exclusive) of the maximal strictly decreasing run containing index n-1-d:
         h(0) = n, h(d+1) = h(d) if t[n-2-d] > t[n-1-d] else n-1-d."""
@@ -773,6 +784,14 @@ class RunCtx:
         lo = 0
         for k in range(0, j):
             if not (k + 1 < len(t) and t[k] > t[k + 1]):
+                lo = k + 1
+        return lo
+
+    def rec_asc_lo(self, t, j):
+        t = tuple(t)
+        lo = 0
+        for k in range(0, j):
+            if not (k + 1 < len(t) and t[k] < t[k + 1]):
                 lo = k + 1
         return lo
 
